@@ -54,7 +54,8 @@ Definition run_search (v : val) : val :=
   let lt := 10%N in
   let cfg := mk_cfg capacity lt alloc mode in
   let scfg := mk_std_cfg mode max_matches 0 path [lt] (Some [45; 45]%N) dbg_byte in
-  let sum k := mk_sum_cfg mode k max_matches true path [lt] [58%N] pterm in
+  let sum_ez ez k := mk_sum_cfg mode k max_matches ez path [lt] [58%N] pterm in
+  let sum k := sum_ez true k in
   let fuel := length stream + 3 in
   let search {St} (sink : St -> event -> St * bool) (s0 : St) : (St * list event) * outcome :=
     match strategy with
@@ -70,7 +71,9 @@ Definition run_search (v : val) : val :=
   let sum_out k := ms_out (fst (fst (search (sum_step (sum k)) (mk_sum 0 None [])))) in
   VL [ of_list enc_event (rev tr); enc_outcome o; of_bytes (ss_out st);
        of_bytes (sum_out SKCount); of_bytes (sum_out SKPathWithMatch);
-       of_bytes (sum_out SKPathWithoutMatch) ].
+       of_bytes (sum_out SKPathWithoutMatch);
+       (* -c --include-zero *)
+       of_bytes (ms_out (fst (fst (search (sum_step (sum_ez false SKCount)) (mk_sum 0 None []))))) ].
 
 (* kind 1402: replace_bytes *)
 Definition run_replace_bytes (v : val) : val :=
